@@ -146,8 +146,10 @@ template<class C> struct Seg {
     return w;
   }
   bool canUpdate(int i) { return sk[i] && total[i] + 1 <= (fromUnion[i] ? UCAP + CAP : CAP) && ids[i].size() < 450; }
-  void opUpdate(int i, long w, bool rv) {
-    int id = nextId++; wt[id] = (int)w; T item = C::item(id);
+  void opUpdate(int i, long w, bool rv) { opUpdateX(i, nextId++, w, rv); }
+  // the same item may be offered to several objects (an original and its restored copies in lock-step)
+  void opUpdateX(int i, int id, long w, bool rv) {
+    wt[id] = (int)w; T item = C::item(id);
     std::string threw;
     try { if (rv) sk[i]->update(std::move(item), (double)w); else sk[i]->update(item, (double)w); }
     catch (std::exception& ex) { threw = clean(ex.what()); if (threw.empty()) threw = "exception"; }
@@ -219,8 +221,8 @@ template<class C> struct Seg {
     e.i("total", (long long)bytes.size()).i("size", (long long)blob[b].bytes.size()).i("advertised", (long long)adv)
      .bytes("img", blob[b].bytes.data(), blob[b].bytes.size()).bytes("simg", st.data(), st.size()).emit();
   }
-  void opDeser(int b, int j) {
-    bool stream = g.chance(50);
+  void opDeser(int b, int j, int path = -1) {
+    bool stream = path < 0 ? g.chance(50) : path == 1;
     std::string threw; long long consumed = -1; std::unique_ptr<SK> r; std::vector<uint8_t> re;
     try {
       if (stream) {
@@ -320,8 +322,8 @@ template<class C> struct Seg {
   }
   std::set<int> ublobIds[NB]; long long ublobTotal[NB] = {0, 0, 0, 0};
   std::vector<int> sblobIds[NB]; long long sblobTotal[NB] = {0, 0, 0, 0}; bool sblobFromUnion[NB] = {false, false, false, false};
-  void opUDeser(int b, int u) {
-    bool stream = g.chance(50);
+  void opUDeser(int b, int u, int path = -1) {
+    bool stream = path < 0 ? g.chance(50) : path == 1;
     std::string threw; long long consumed = -1; std::unique_ptr<UN> r; std::vector<uint8_t> re;
     try {
       if (stream) {
@@ -474,6 +476,66 @@ template<class C> struct Seg {
     }
   }
 
+  void serTrack(int i, int b) { opSer(i, b); if (blob[b].live && !blob[b].isUnion) { sblobIds[b] = ids[i]; sblobTotal[b] = total[i]; sblobFromUnion[b] = fromUnion[i]; } }
+  void deserTrack(int b, int j, int path) { opDeser(b, j, path); if (sk[j] && restored[j]) { ids[j] = sblobIds[b]; total[j] = sblobTotal[b]; fromUnion[j] = sblobFromUnion[b]; } }
+  // C09 "restore, then continue" at the EDGE states: the empty sketch, exactly one item, and right after reset().
+  // The image (bytes with a header and stream form) is restored through both readers; original (slot 0) and the
+  // two restored sketches (slots 1, 2) then receive the SAME further items in lock-step, across the warm-up /
+  // estimation boundary, are observed, serialized again, and used as union operands next to a fresh sketch.
+  // The same for var_opt_union objects: empty, fed one one-item sketch, right after reset().
+  void directedRestoreEdges() {
+    for (int state = 0; state < 3; state++) {
+      long k = state == 0 ? 3 : state == 1 ? 4 : 2;
+      opNew(0, k); prof[0] = 0;
+      if (state == 1) opUpdate(0, 5, false);
+      if (state == 2) { for (int t = 0; t < 7; t++) opUpdate(0, 1 + t % 3, false); opObs(0); opReset(0); }
+      opObs(0);
+      serTrack(0, 0); if (!blob[0].live) continue;
+      deserTrack(0, 1, 0); deserTrack(0, 2, 1);
+      for (int j = 1; j <= 2; j++) if (sk[j]) opObs(j);
+      for (int t = 0; t < (int)k + 6; t++) {
+        int id = nextId++; long w = g.range(1, 9); bool rv = g.chance(40);
+        for (int j = 0; j <= 2; j++) if (sk[j]) opUpdateX(j, id, w, rv);
+        if (t == 0 || t == (int)k || t == (int)k + 5) for (int j = 0; j <= 2; j++) if (sk[j]) opObs(j);
+      }
+      for (int j = 0; j <= 2; j++) if (sk[j]) { serTrack(j, 1 + j % 3); }
+      // as union operands: the bytes-restored one and the original into two unions next to the same fresh sketch
+      opNew(3, 3); for (int t = 0; t < 5; t++) opUpdate(3, g.range(1, 9), false);
+      for (int u = 0; u < 2; u++) {
+        int src = u == 0 ? 1 : 0;
+        if (!sk[src] || !sk[3]) continue;
+        opUNew(u, 4); opUUpdate(u, src, false); if (un[u]) opUUpdate(u, 3, false);
+        if (un[u]) { opUResult(u, 4); if (sk[4]) opObs(4); }
+      }
+      if (sk[2]) { opReset(2); opObs(2); opUpdate(2, 3, false); if (sk[2]) opObs(2); }   // the stream-restored one: reset and reuse
+      for (int i = 0; i < NS; i++) drop(i);
+      for (int u = 0; u < NU; u++) udrop(u);
+    }
+    // union objects
+    for (int state = 0; state < 3; state++) for (int path = 0; path < 2; path++) {
+      long mk = state == 0 ? 3 : state == 1 ? 5 : 2;
+      opUNew(0, mk);
+      if (state == 1) { opNew(0, 2); opUpdate(0, 4, false); opUUpdate(0, 0, false); drop(0); }
+      if (state == 2) { opNew(0, 2); for (int t = 0; t < 6; t++) opUpdate(0, 1 + t % 4, false); opUUpdate(0, 0, false); if (un[0]) { opUResult(0, 4); opUReset(0); } drop(0); drop(4); }
+      if (!un[0]) continue;
+      opUResult(0, 3); if (sk[3]) opObs(3);
+      opUSer(0, 0); if (!blob[0].live) continue;
+      opUDeser(0, 1, path); if (!un[1]) continue;
+      opUResult(1, 4); if (sk[4]) opObs(4);
+      // lock-step: the same input sketches (lvalue) into the original and the restored union
+      for (int round = 0; round < 3 && un[0] && un[1]; round++) {
+        long k = round == 0 ? 1 : round == 1 ? 3 : 2; long n = round == 0 ? 1 : round == 1 ? 2 : 8;
+        opNew(0, k); for (long t = 0; t < n; t++) opUpdate(0, g.range(1, 9), false);
+        opUUpdate(0, 0, false); if (un[1] && sk[0]) opUUpdate(1, 0, false);
+        if (un[0]) { opUResult(0, 3); if (sk[3]) opObs(3); }
+        if (un[1]) { opUResult(1, 4); if (sk[4]) opObs(4); }
+      }
+      if (un[1]) { opUSer(1, 1); if (blob[1].live) opUDeser(1, 1, 1 - path); if (un[1]) { opUResult(1, 4); if (sk[4]) { opObs(4); opUpdate(4, 2, false); if (sk[4]) opObs(4); } } }
+      for (int i = 0; i < NS; i++) drop(i);
+      for (int u = 0; u < NU; u++) udrop(u);
+    }
+  }
+
   // directed histories (inputs on which the pinned tree was found to throw; see notes/C16-report.md)
   void directedTie() {
     // a: estimation mode, r = 3, total 28, tau = 28/3; b: exact mode; in the gadget the 4th candidate ties with tau
@@ -555,6 +617,10 @@ int main(int argc, char** argv) {
     { Ev("Begin").i("seg", segno++).str("type", "i64").str("kind", "directed-tie").emit(); Seg<ConvI> s(g, maxk); s.directedTie(); }
     { Ev("Begin").i("seg", segno++).str("type", "str").str("kind", "directed-pseudo-exact").emit(); Seg<ConvS> s(g, maxk); s.directedPseudoExact(); }
     { Ev("Begin").i("seg", segno++).str("type", "i64").str("kind", "directed-result-heap").emit(); Seg<ConvI> s(g, maxk); s.directedResultHeap(); }
+  }
+  if (!design && vt::argl(argc, argv, "--edges", 1)) {
+    { Ev("Begin").i("seg", segno++).str("type", "i64").str("kind", "directed-restore-edges").emit(); Seg<ConvI> s(g, maxk); s.directedRestoreEdges(); }
+    { Ev("Begin").i("seg", segno++).str("type", "str").str("kind", "directed-restore-edges").emit(); Seg<ConvS> s(g, maxk); s.directedRestoreEdges(); }
   }
   long regimes = vt::argl(argc, argv, "--regimes", design ? 0 : 16);
   if (regimes > 0) {
